@@ -253,7 +253,13 @@ func (r *intraProxyStreamReceiver) Run(ctx context.Context, shardManager ShardMa
 	r.streamClient = streamClient
 
 	r.shardManager.RegisterActiveReceiver(r.sourceShardID, r)
-	defer r.shardManager.UnregisterActiveReceiver(r.sourceShardID)
+	defer func() {
+		// A successor may have been started for the same shard pair while this receiver was still shutting down: only
+		// remove the registration if it is still ours.
+		if current, ok := r.shardManager.GetActiveReceiver(r.sourceShardID); ok && current == ActiveReceiver(r) {
+			r.shardManager.UnregisterActiveReceiver(r.sourceShardID)
+		}
+	}()
 
 	// Register client-side intra-proxy stream in tracker
 	st := GetGlobalStreamTracker()
@@ -670,10 +676,15 @@ func (m *intraProxyManager) ensureStream(
 		if err := recv.Run(ctx, m.shardManager, ps.conn); err != nil {
 			m.loggers.Get(logging.ShardRouting).Error("intraProxyStreamReceiver.Run error", tag.Error(err))
 		}
-		// remove the receiver from the peer state
+		// remove the receiver from the peer state, unless reconciliation has already replaced it with a successor
+		// (this receiver can still be shutting down when the pair is wanted again)
 		m.streamsMu.Lock()
-		delete(ps.receivers, key)
-		delete(ps.recvShutdown, key)
+		if ps.receivers[key] == recv {
+			delete(ps.receivers, key)
+		}
+		if ps.recvShutdown[key] == recv.shutdown {
+			delete(ps.recvShutdown, key)
+		}
 		m.streamsMu.Unlock()
 	}()
 	return nil
